@@ -243,6 +243,45 @@ def check_ops_table(res, drv):
             res.traces_validated += 1
 
 
+def check_valid_clifford(res, drv, rng, count):
+    """`_is_valid_clifford` directly (since the repair of D14 the searches rarely meet a candidate with an all-ones block, so the
+    reduction modulo 2 of the determinant is no longer exercised end to end): all 16 one-block and all 256 two-block vectors, random
+    vectors up to 5 blocks; against the definition (every block invertible over GF(2)) and against the model"""
+    from graphiq.backends.lc_equivalence_check import _is_valid_clifford
+
+    vecs = [[(m >> k) & 1 for k in range(4)] for m in range(16)] + [[(m >> k) & 1 for k in range(8)] for m in range(256)]
+    for _ in range(count):
+        nb = rng.randrange(1, 6)
+        # mostly-valid: start from invertible blocks and spoil at most one
+        inv = [[1, 0, 0, 1], [0, 1, 1, 0], [1, 1, 0, 1], [1, 1, 1, 0], [0, 1, 1, 1], [1, 0, 1, 1]]
+        v = [b for _ in range(nb) for b in rng.choice(inv)]
+        if rng.random() < 0.6:
+            k = rng.randrange(nb)
+            v[4 * k:4 * k + 4] = rng.choice([[1, 1, 1, 1], [0, 0, 0, 0], [1, 1, 0, 0], [1, 0, 1, 0], [0, 0, 1, 1]])
+        vecs.append(v)
+    lines, meta = [], []
+    for v in vecs:
+        nb = len(v) // 4
+        want = all((v[4 * i] * v[4 * i + 3] + v[4 * i + 1] * v[4 * i + 2]) % 2 == 1 for i in range(nb))
+        try:
+            got = bool(_is_valid_clifford(np.array(v).reshape(4 * nb, 1)))
+        except Exception as e:  # noqa: BLE001
+            got = f"err {err_class(e)}"
+        res.evaluations += 1
+        if got is not want:
+            gu.viol(res, "_is_valid_clifford:wrong", "a vector is a valid local Clifford iff every 2x2 block is invertible over GF(2)",
+                    input={"q": "".join(map(str, v))}, impl=str(got), expected=str(want))
+        res.nontrivial("valid", "".join(map(str, v)))
+        lines.append(f"lc.valid q={''.join(map(str, v))}")
+        meta.append((v, got))
+    reps = drv.batch(lines)
+    for rep, (v, got) in zip(reps, meta):
+        if rep["_status"] != "ok" or rep.get("valid") != ("1" if got is True else "0" if got is False else "?"):
+            res.exact_break("lc.valid", input={"q": "".join(map(str, v))}, impl=str(got), model=rep["_raw"][:100])
+        else:
+            res.traces_validated += 1
+
+
 # ---------------------------------------------------------------------------------------------------- one pair, everything
 def components_ref(A):
     """connected components by definition (label propagation to a fixed point), independent of graphiq and of the model"""
@@ -836,6 +875,7 @@ def run(ctx):
     orb = gu.OrbitOracle(drv)
     rng = ctx.rng
     check_ops_table(res, drv)
+    check_valid_clifford(res, drv, rng, 100 if ctx.quick else 2000)
     d14_witnesses(res, drv, orb)
     former_d40_inputs(res, drv)
     malformed(res, drv, rng)
@@ -890,6 +930,15 @@ def replay(ctx, data):
             n = int(kv["n"])
             A = gu.adj_from_bits(kv["a"], n)
             check_local_comp(res, drv, [A], "replay")
+        elif "q" in inp and "a" not in inp and "adj" not in inp:
+            from graphiq.backends.lc_equivalence_check import _is_valid_clifford
+
+            v = [int(c) for c in inp["q"]]
+            nb = len(v) // 4
+            want = all((v[4 * i] * v[4 * i + 3] + v[4 * i + 1] * v[4 * i + 2]) % 2 == 1 for i in range(nb))
+            got = bool(_is_valid_clifford(np.array(v).reshape(4 * nb, 1)))
+            print("replay _is_valid_clifford:", inp["q"], "->", got, "expected", want)
+            return got is want
         elif "a" in inp and "kinds" not in inp:
             kv = dict(t.split("=", 1) for t in (inp["a"] + " " + inp["b"]).split())
             n = int(kv["n"])
